@@ -44,8 +44,10 @@ X86Addr(s, m0) ==
            ELSE <<"heap", HeapKey(base.b, o \div 8)>>
      ELSE IF base.t = "stk" THEN
         LET o == base.o + m.off
-        IN IF m.base # "rsp" THEN <<"bad", "mem", "stack access through a register other than rsp">>
-           ELSE IF o < 0 /\ ((-o) % 8) = 0 /\ m.off >= 0 THEN <<"stk", o>>
+        \* any register may hold a stack address (frame pointer); the accessed word must lie in the routine's own frame,
+        \* at or above the current stack pointer and below the return address
+        IN IF s.regs["rsp"].t # "stk" THEN <<"bad", "mem", "stack access with a corrupt stack pointer">>
+           ELSE IF o < 0 /\ ((-o) % 8) = 0 /\ o >= s.regs["rsp"].o THEN <<"stk", o>>
            ELSE <<"bad", "mem", "stack access outside the routine's own frame">>
      ELSE IF IsJunk(base) THEN <<"bad", "undef", "memory access through an undefined register">>
      ELSE <<"bad", "mem", "memory base is not a pointer (" \o base.t \o ")">>
